@@ -121,9 +121,11 @@ def typing(g, obj, cfg, seed=7):
     from rdkit import Chem
     try:
         if cfg == "partial":
-            els = obj.elements
-            mg = els[0].generate(None, np.random.default_rng(seed))
-            if mg.fully_generated:
+            # a partially generated molecule: the whole molecule if it ends with an open descriptor, else its first element alone
+            mg = obj.generate(rng=np.random.default_rng(seed))
+            if len(mg.bond_descriptors) == 0:
+                mg = obj.elements[0].generate(None, np.random.default_rng(seed))
+            if len(mg.bond_descriptors) == 0:
                 return ["not-partial"]
             try:
                 mg.forcefield_types
@@ -131,6 +133,16 @@ def typing(g, obj, cfg, seed=7):
             except Exception as exc:
                 return ["partial-refused", type(exc).__name__]
         mg = obj.generate(rng=np.random.default_rng(seed))
+        if len(mg.bond_descriptors) > 0:
+            # the molecule text ends with an open descriptor: typing has to refuse, with whichever files
+            try:
+                if cfg == "default":
+                    mg.forcefield_types
+                else:
+                    mg.get_forcefield_types(*ff_files()[cfg])
+                return ["partial-accepted"]
+            except Exception as exc:
+                return ["partial-refused", type(exc).__name__]
         if cfg == "default":
             ff, mol = mg.forcefield_types
         else:
